@@ -260,9 +260,9 @@ TAILS = ["--- | ---", "|---|---|", ": def", "===", "---", "- next", "> more", " 
 
 def interaction_doc(r, n=None):
     """interrupt / lazy-continuation fragments; one in five is an edge document (edge_doc: wide white space at the borders of
-    block text, degenerate definition keys)"""
+    block text, degenerate definition keys; tab_doc: tabs and mixed indentation after container markers)"""
     if n is None and r.random() < 0.2:
-        return edge_doc(r)
+        return edge_doc(r) if r.random() < 0.6 else tab_doc(r)
     out = []
     for _ in range(n or r.randint(1, 3)):
         out.append(r.choice(HEADS))
@@ -274,7 +274,8 @@ def interaction_doc(r, n=None):
 
 
 SHOWCASE_PLUGINS = {"footnotes": ["footnotes"], "abbr": ["abbr"], "table": ["table"], "def_list": ["def_list"], "task_lists": ["task_lists"], "math": ["math"],
-                    "spoiler": ["spoiler"], "ruby": ["ruby"], "formatting": ["strikethrough", "mark", "insert", "superscript", "subscript"], "url": ["url"], "refs": []}
+                    "spoiler": ["spoiler"], "ruby": ["ruby"], "formatting": ["strikethrough", "mark", "insert", "superscript", "subscript"], "url": ["url"], "refs": [],
+                    "specials": ["strikethrough", "mark", "insert", "superscript", "subscript", "footnotes", "abbr", "table", "def_list", "task_lists", "math", "spoiler", "ruby", "url"]}
 
 
 def showcase_for(r):
@@ -298,11 +299,31 @@ def abbr_showcase(r):
     return (body + "\n\n" + defs) if r.random() < 0.7 else (defs + "\n" + body + "\n")
 
 
+SPECIALS = ["<b>", "</td>", "a&b", "AT&T", "\"q\"", "<i x=\"y\">", "&amp;", "'", "<script>", "a<b", "x>y", "&#60;", "<!--", "]]>", "<a href=\"/z\">"]
+
+
+def special_slots(r):
+    """every slot of every plugin syntax (and of the core inline syntax) filled with HTML-special characters: ruby bases and
+    readings, struck / marked / inserted / super- and subscript text, spoilers, math, footnote keys and texts, abbreviation keys
+    and titles, definition-list terms, table cells, task-list text, URLs, link text / destination / title, code info strings;
+    also near misses of each syntax (the special character where the syntax allows only word characters)"""
+    s = lambda: r.choice(SPECIALS)  # noqa
+    forms = ["[%s(かな)]" % s(), "[漢字(%s)]" % s(), "[%s(r)](/u)" % s(), "[k(r)%s(q)]" % s(), "~~%s~~" % s(), "==%s==" % s(), "^^%s^^" % s(), "x^%s^" % s(), "H~%s~O" % s(),
+             ">!%s!<" % s(), "$%s$" % s(), "$$\n%s\n$$" % s(), "t[^%s]\n\n[^%s]: n %s" % ((s(),) * 2 + (s(),)), "t[^k]\n\n[^k]: %s" % s(),
+             "use AB %s\n\n*[AB]: %s" % (s(), s()), "x %s y\n\n*[%s]: t" % ((s(),) * 2), "%s\n: d %s" % (s(), s()), "| %s | b |\n|---|---|\n| c | %s |" % (s(), s()),
+             "- [ ] %s\n- [x] %s" % (s(), s()), "see https://e.x/%s end" % s(), "[%s](/u)" % s(), "[t](/u%s)" % s(), "[t](/u \"%s\")" % s().replace('"', ""),
+             "![%s](/i.png)" % s(), "```%s\ncode %s\n```" % (s(), s()), "# h %s" % s(), "> q %s" % s(), "*e %s*" % s(), "`c %s`" % s(), ">! %s\n>! m" % s(),
+             "[t][%s]\n\n[%s]: /u" % ((s().replace("]", ""),) * 2), "<%s@e.x>" % s(), "term %s\n: %s" % (s(), s())]
+    return "\n\n".join(r.sample(forms, r.randint(1, 4))) + "\n"
+
+
 def showcase(r, k=None):
     """a small document in which one plugin's constructs are actually used together (definition + reference etc.)"""
     w = lambda: words(r, 1, 3)  # noqa
     end = lambda: r.choice(["", " *em*", " `code`", " http", " src/", " [l](/u)", " <b>", " **s**", " p", " x>"])  # noqa
-    k = k or r.choice(["footnotes", "footnotes", "abbr", "table", "def_list", "task_lists", "math", "spoiler", "ruby", "formatting", "url", "refs"])
+    k = k or r.choice(["footnotes", "footnotes", "abbr", "table", "def_list", "task_lists", "math", "spoiler", "ruby", "formatting", "url", "refs", "specials", "specials"])
+    if k == "specials":
+        return special_slots(r)
     if k == "abbr" and r.random() < 0.7:
         return abbr_showcase(r)
     if k == "footnotes":
@@ -401,6 +422,62 @@ def edge_doc(r, plugins=()):
             out.append("%s %s [x][%s] [%s][] ![%s]\n\n%s\n" % (t, key, key, key, key, r.choice(DEGENERATE_DEFS) % key))
         else:
             out.append("%s%s%s\n" % (w, r.choice(["# h", "- a", "> q", "    code", "```\nc\n```", "| a |\n|---|", "<div>", "[r]: /u"]), w))
+    return "\n".join(out)
+
+
+WRAP_OPEN_CLOSE = [("`a", "b`"), ("``a `", "b``"), ('<b class="x', 'y">z</b>'), ("<i\n", "id=k>w</i>"), ("[text", "more](/u)"), ("[t](/u 'ti", "tle')"), ("*em", "ph*"),
+                   ("**str", "ong**"), ("<!-- c", "d -->"), ("![al", "t](/i.png)"), ("<http://e.x/a", "b>"), ("~~de", "l~~"), ("$a", "b$"), ("_u", "v_")]
+
+
+def wrapped_doc(r):
+    """paragraphs (top level, in quotes, in list items) of several lines whose continuation lines are indented by 0-5 spaces or
+    by tabs, with inline constructs that straddle the line break: code spans, inline HTML, links and titles, emphasis"""
+    out = []
+    for _ in range(r.randint(1, 3)):
+        pre = r.choice(["", "", "", "> ", "- ", "1. "])
+        cont = {"": "", "> ": r.choice(["> ", "", ">"]), "- ": r.choice(["  ", ""]), "1. ": r.choice(["   ", ""])}[pre]
+        lines = [pre + words(r, 1, 3)]
+        for _ in range(r.randint(1, 3)):
+            o, c = r.choice(WRAP_OPEN_CLOSE)
+            ind = r.choice(["", " ", "  ", "   ", "    ", "     ", "\t", " \t", "  "])
+            lines[-1] += " " + o + r.choice(["", " ", "  ", "\\"])
+            lines.append(cont + ind + c + " " + words(r, 1, 2))
+        out.append("\n".join(lines) + "\n")
+    return "\n".join(out)
+
+
+TAB_WS = ["\t", "\t\t", " \t", "  \t", "\t ", " \t\t", "   \t", "    ", "\t    ", " ", "  \t\t"]
+
+
+def tab_doc(r, markers=None):
+    """container markers followed by tabs and by mixed tab/space indentation: quotes, bullets and ordered items whose content
+    begins after one or two tabs (text, or indented code once the marker's column is used up), continuation lines, lazy lines
+    and lines after a blank line indented with tabs, fenced and indented code that holds tabs"""
+    out = []
+    for _ in range(r.randint(1, 4)):
+        m = r.choice(markers or [">", "-", "1.", "> -", "- >", ">>", "*", "+", "2)", "> 1."])
+        w, w2 = r.choice(TAB_WS), r.choice(TAB_WS)
+        t, u = words(r, 1, 3), words(r, 1, 3)
+        q = ">" if m.startswith(">") else ""
+        k = r.randrange(9)
+        if k == 0:
+            out.append("%s%s%s\n" % (m, w, t))
+        elif k == 1:
+            out.append("%s%s%s\n%s%s%s\n" % (m, w, t, m, w2, u))
+        elif k == 2:
+            out.append("%s %s\n%s\n%s%s%s\n" % (m, t, q, q, w, u))              # after a blank (quoted) line: a tab-indented line
+        elif k == 3:
+            out.append("%s %s\n\n%s%s\n" % (m, t, w, u))
+        elif k == 4:
+            out.append("%s%s\n" % (w, t))                                        # top level: indented code or text
+        elif k == 5:
+            out.append("%s\n%s%s\n" % (t, w, u))                                 # a lazy line that begins with tabs
+        elif k == 6:
+            out.append("%s ```\n%s%s%s\tx\n%s ```\n" % (m, q or "  ", w, t, q or "  "))  # fenced code with tabs inside a container
+        elif k == 7:
+            out.append("%s%s%s\n%s%s%s\n" % (m, w, t, q, w2, u))                  # second line without the item marker
+        else:
+            out.append("%s%s\n%s%s%s\n" % (m, r.choice(["", " ", "\t"]), q, w, t))  # empty first line of the container
     return "\n".join(out)
 
 
